@@ -296,6 +296,22 @@ theorem failure_log_length (cfg : WrapCfg) (name : String) (out : CalleeOut) (lo
       log.length + (if (failureMsg out).isSome && cfg.hasLogFn && cfg.debug then 1 else 0) := by
   cases out <;> simp [wrapCall, failureMsg, logFailure] <;> split <;> simp_all
 
+/-- **The host configuration changes nothing but the log**: what a call evaluates to (value, or which documented
+exception) is the same under every combination of `debug` and `logFn` present / absent, whatever was logged before. -/
+theorem wrapper_result_config_independent (cfg cfg' : WrapCfg) (name : String) (out : CalleeOut) (log log' : List String) :
+    (wrapCall cfg name out log).1 = (wrapCall cfg' name out log').1 := by
+  cases out <;> rfl
+
+/-- without a `logFn` (the member is optional), or without `debug`, the wrapper logs nothing — and needs no log
+function: a failing call is still only its value -/
+theorem wrapper_silent_without_logFn_or_debug (cfg : WrapCfg) (h : cfg.hasLogFn = false ∨ cfg.debug = false)
+    (name : String) (out : CalleeOut) (log : List String) :
+    (wrapCall cfg name out log).2 = log := by
+  cases out <;> rcases h with h | h <;> simp [wrapCall, logFailure, h]
+
+example : wrapCall ⟨true, false⟩ "arrayGet" (.host .indexError "list index out of range") []
+    = (.value .none, []) := by decide
+
 example : wrapCall ⟨true, true⟩ "arrayGet" (.host .indexError "list index out of range") ["before"]
     = (.value .none, ["before", "BareScript: Function \"arrayGet\" failed with error: list index out of range"]) := by decide
 example : wrapCall ⟨false, true⟩ "arrayIndexOf" (.argsError "Invalid \"index\" argument value, 5" (.int (-1))) ["before"]
